@@ -37,6 +37,27 @@ CHECKS = {
              "real leaf amounts (non-zero divisors) that base-unit magnitudes multiply/divide, a*b ~ b*a, (a*b)/b ~ a, a//b = floor(a/b).",
         note="floats as exact reals; scale-only units; NRA queries to z3 with 20 s timeout (unknown => exit 2); shims for float()",
         ref="DESIGN.md §4 C04"),
+    "C08": dict(
+        text="Order: for every unit<->base pair (quick) / every ordered unit pair (thorough) of every quantity type the six rich comparisons of Scalar and "
+             "FractionScalar run on SYMBOLIC amounts; z3 proves for ALL reals that <,<=,>,>= agree with comparing tobase(amounts), that a>b and b>a never both "
+             "hold and a<=b or b<=a; same-unit comparisons over ALL IEEE doubles (NaN). Equality: all ordered pairs of a pool of 50 objects (9 barril "
+             "classes in simple/derived/empty/unknown shapes over list/tuple/numpy containers + None/str/int/tuple/float/list): == and != never raise, "
+             "are reflexive, symmetric, mutually negated, and equal hashables hash equal (proxy hash = congruence token).",
+        note="open known finding: FractionScalar order inside the Fraction.SMALL (1e-8) window of equality - the windowed claims are proved, the strict ones listed",
+        ref="DESIGN.md §4 C08"),
+    "C09": dict(
+        text="For Scalars (simple, affine, derived), Arrays over list/tuple/numpy (simple, derived) and FixedArrays, all ten operators with a plain number on "
+             "either side: with a SYMBOLIC python float k and symbolic amounts z3 proves the result value(s) are the operator applied to the value(s), the "
+             "result is a barril object of x's class with x's quantity (reciprocal for k/x, k//x). numpy scalar / float64 ndarray k come from a concrete set.",
+        note="numpy scalars are C objects and cannot be symbolic (enumerated, stated); float32 k compared with 1e-6 relative tolerance (NEP 50 single precision)",
+        ref="DESIGN.md §4 C09"),
+    "C10": dict(
+        text="Array <op> Array for 10 operand quantities (simple, affine, derived) x 5 operators x 3x3 container kinds x lengths 0..3 with SYMBOLIC elements: "
+             "each result element is proved equal to the REAL Scalar operator applied to the corresponding elements in the same run, quantities equal, "
+             "container rule kept, unequal lengths rejected on every path; GetValues(unit)/CreateCopy(unit) element-wise equal Scalar.GetValue; "
+             "FromScalars then indexing returns the amounts.",
+        note="open known finding: numpy broadcasting of a length-1 operand; zero-divisor behaviour of real float64 arrays (inf instead of raising) is outside (A-NP)",
+        ref="DESIGN.md §4 C10"),
     "C11": dict(
         text="FixedArray construction routes, CreateWithQuantity and CreateCopy(values) run with the dimension and the container length as "
              "UNBOUNDED symbolic integers: z3 proves on every path that an accepted object has len(values)==dimension>=2 and that rejection "
